@@ -1,0 +1,20 @@
+//go:build verif
+
+package rawdb
+
+import (
+	"github.com/kardiachain/go-kardia/kai/kaidb"
+	"github.com/kardiachain/go-kardia/lib/common"
+)
+
+// Verification hook for the out-of-tree harness (/verif/harness/determinism, property C06).
+// Add-only and read-only; nothing here is compiled without the `verif` build tag.
+
+// VerifDetReadBlockInfoRaw returns the stored encoding of a block's BlockInfo (gas used, reward,
+// receipts, bloom) exactly as WriteBlockInfo wrote it.  ReadBlockInfo cannot serve here: it derives
+// fields from the block's transaction list and returns nil for blocks without transactions and for
+// blocks in which a transaction was skipped.
+func VerifDetReadBlockInfoRaw(db kaidb.Reader, hash common.Hash, number uint64) []byte {
+	data, _ := db.Get(blockInfoKey(number, hash))
+	return data
+}
